@@ -59,6 +59,11 @@ def run(ctx, rep):
     rep.rule('R5', 'returned LayerData is re-read from disk after the last mutation')
     rep.rule('R6', 'env writer/reader agree on all four scopes')
     rep.not_decided = ['byte equality of disk contents and callback data (toml/fs trusted)', 'behaviour of user callbacks']
+    from . import layer_roles
+    global HL, WL, RL
+    ROLES = layer_roles.roles(prog, sl)
+    HL, WL, RL = ROLES['TRAIT_HL'] or HL, ROLES['TRAIT_WL'] or WL, ROLES['TRAIT_RL'] or RL
+    LayerPaths.sbom_path_fn = ROLES['SBOM_PATH'] or LayerPaths.sbom_path_fn
     E = Effects(prog, sl)
     hl = prog.fn(HL)
     rep.analysed(hl)
@@ -226,12 +231,12 @@ def run(ctx, rep):
     rep.analysed(wl)
     sites = [s.bb for s in E.sites(wl)]
     must_names = [c.name for c, fa in E.must_calls(wl, sites)]
-    rep.check('libcnb::layer::shared::write_layer' in must_names and L.W_LAYER in must_names, 'R4', 'writer/always', '%s:%d' % (wl.file, wl.line),
+    rep.check(ROLES['SHARED_WL'] in must_names and L.W_LAYER in must_names, 'R4', 'writer/always', '%s:%d' % (wl.file, wl.line),
               'metadata and env are written on every success path', 'metadata/env write is conditional: %s' % [n.split('::')[-1] for n in must_names])
-    for callee, enum, pidx in (('libcnb::layer::shared::replace_layer_sboms', 'libcnb::layer::trait_api::handling::Sboms', 5),
-                               ('libcnb::layer::shared::replace_layer_exec_d_programs', 'libcnb::layer::trait_api::handling::ExecDPrograms', 4)):
+    for callee, enum, pidx in ((ROLES['REPLACE_SBOMS'], 'libcnb::layer::trait_api::handling::Sboms', 5),
+                               (ROLES['REPLACE_EXECD'], 'libcnb::layer::trait_api::handling::ExecDPrograms', 4)):
         cs = [c for c in wl.calls if c.name == callee]
-        short = callee.split('::')[-1]
+        short = {5: 'replace_layer_sboms', 4: 'replace_layer_exec_d_programs'}[pidx]
         if len(cs) != 1:
             rep.violated('R4', 'writer/' + short, '%s:%d' % (wl.file, wl.line), '%d call sites of %s in the writer' % (len(cs), short))
             continue
@@ -243,7 +248,7 @@ def run(ctx, rep):
         p_ok = pv[0] == 'field' and pv[2] == '0' and pv[1][0] == 'variant' and pv[1][2] == 'Replace' and strip(pv[1][1])[2] == pidx
         rep.check(p_ok, 'R4', 'writer/%s/payload' % short, c.where(), 'replaces with the Replace payload', 'replacement data is %s' % vstr(pv)[:80])
     # replace really replaces
-    rs = prog.fn('libcnb::layer::shared::replace_layer_sboms')
+    rs = prog.fn(ROLES['REPLACE_SBOMS'])
     rep.analysed(rs)
     lp = LayerPaths(lambda v: v[0] == 'param' and v[1] == rs.path and v[2] == 0, lambda v: v[0] == 'param' and v[1] == rs.path and v[2] == 1)
     must = E.expand(rs, 'must')
@@ -266,7 +271,7 @@ def run(ctx, rep):
     if rm and wr:
         order = [id(e) for e in must]
         rep.check(order.index(id(rm[0])) < order.index(id(wr[0])), 'R4', 'replace_sboms/order', '%s:%d' % (rs.file, rs.line), 'remove before write', 'SBOMs are removed after being written')
-    rx = prog.fn('libcnb::layer::shared::replace_layer_exec_d_programs')
+    rx = prog.fn(ROLES['REPLACE_EXECD'])
     rep.analysed(rx)
     lpx = LayerPaths(lambda v: v[0] == 'param' and v[1] == rx.path and v[2] == 0, lambda v: v[0] == 'param' and v[1] == rx.path and v[2] == 1)
     may = E.expand(rx, 'may')
